@@ -26,6 +26,10 @@ def std_filt(w, fid):
     """the Python twin of Nbrs.std_filt"""
     if fid is None:
         return None
+    if w.__dict__.get("ephemeral_filters"):
+        # a NEW callable for every call, dropped right after it (inline lambdas / per-call closures): the memo must not
+        # mistake it for an earlier, dead one (e.g. by its recycled address)
+        return _std_filt(w, fid)
     return _memo(w, "filt", fid, lambda: _std_filt(w, fid))
 
 
